@@ -136,11 +136,10 @@ def generate(g, tier):
         shape = r.choice(['paren', 'plain', 'not', 'concat', 'cmp'])
         k0 = names[0]
         e = {'paren': Bin('*', Bin('+', Var(k0), Lit(1)), Lit(2)), 'plain': gen_num(g, vs, 2, False), 'not': Not(Bin('>', Var(k0), Lit(4))),
-             'concat': Bin('+', Lit('v='), Bin('+', Var(k0), Lit(1))), 'cmp': Bin('<', Var(k0), Lit(5))}[shape]
+             'concat': Bin('+', Lit('#='), Bin('+', Var(k0), Lit(1))), 'cmp': Bin('<', Var(k0), Lit(5))}[shape]
         if shape == 'plain' and not any(isinstance(x, Var) for x in walk_expr(e)): e = Bin('+', e, Var(k0))
         if not safe_magnitude(e, vs): continue
         text = layout(g, e)
-        if shape in ('paren', 'concat') and g.chance(0.5): text = text.replace(k0, f'({k0})', 1) if f'({k0})' not in text else text
         vals = [dict(vs)]
         for _k in range(r.randint(1, 3)):
             nv = dict(vals[-1]); nv[r.choice(names)] = r.randint(10, 60); vals.append(nv)
